@@ -277,6 +277,33 @@ def w_faults(task):
     return acc, bi, fails
 
 
+
+def w_support(task):
+    """data-dependent error patterns: every single and double error *inside the support* of the codeword (positions holding a 1)
+    of a sparse message -- the patterns that clear whole rows / columns and so reach shortcuts keyed on all-zero rows"""
+    acc = Acc()
+    for msg in task:
+        try:
+            cw = BPTC19696.encode(bitarray(msg))
+        except Exception as e:
+            acc.violation("exception_encode:" + exc_sig(e), {"message": msg}, repr(e))
+            acc.case()
+            continue
+        supp = [i for i in range(len(cw)) if cw[i]]
+        pats = [(i,) for i in supp] + list(itertools.combinations(supp, 2))
+        for pat in pats:
+            case = {"message": msg, "flipped": list(pat)}
+            try:
+                d = decode_with_errors(cw, pat)
+                if len(d) != K or d.to01() != msg:
+                    acc.violation(("single" if len(pat) == 1 else "double") + "_error_inside_codeword_support_misdecoded",
+                                  {**case, "decoded": d.to01()}, "decoder with repair does not return the original message for a <= 2 bit error")
+            except Exception as e:
+                acc.violation("exception_decode:" + exc_sig(e), case, repr(e))
+            acc.case(nontrivial=True, calls=1, outcome=len(pat), sample=case if len(acc.samples) < 1 else None)
+    return acc
+
+
 # ----------------------------------------------------------------------------------------------
 def run(only=None):
     global MSGS, BASES, CODEWORDS
@@ -398,6 +425,21 @@ def run(only=None):
         s.extra["failing_patterns_base0"] = len(ref)
         s.extra["failing_same_column_digest_base0"] = pairs_digest(
             [PATTERNS[i] for i in ref if pattern_class(PATTERNS[i]) == "double_same_column"]) if ref else None
+        s.done()
+
+    # 4. data-dependent patterns: errors inside the support of sparse codewords ------------------------
+    if want("support_errors_sparse_messages"):
+        s = rep.sub("support_errors_sparse_messages",
+                    "all 96 unit messages (thorough: + all weight-2 messages with both bits in one octet) x every single and double "
+                    "error among the positions where their codeword holds a 1; decode with repair must return the message")
+        msgs = [spaces.unit(K, i) for i in range(K)]
+        if rep.thorough():
+            for o in range(0, K, 8):
+                for a, b in itertools.combinations(range(o, o + 8), 2):
+                    msgs.append(spaces.flip("0" * K, (a, b)))
+        for acc in par.pmap(w_support, par.split_list(msgs, nw * 4), nw):
+            s.merge(acc)
+        s.extra["messages"] = len(msgs)
         s.done()
 
     rep.bounds = {
